@@ -201,8 +201,11 @@ class CompleteWorkflowHandler(StabilizeHandler[CompleteWorkflow]):
         # Not while a cancel is in progress: CancelStage pushes no
         # CompleteWorkflow, so this poll chain is what finalises the workflow once
         # the waiting stage has been canceled.
+        # ... and so is a workflow whose waiting stage is a synthetic child: its parent
+        # is RUNNING, only the child shows SUSPENDED / PAUSED.
+        all_statuses = [s.status for s in execution.stages]
         if (
-            WorkflowStatus.SUSPENDED in statuses or WorkflowStatus.PAUSED in statuses
+            WorkflowStatus.SUSPENDED in all_statuses or WorkflowStatus.PAUSED in all_statuses
         ) and not execution.is_canceled:
             return None
 
